@@ -7,4 +7,6 @@ cd /verif
 PROPS=${@:-C01 C02 C03 C04 C05 C06 C07 C08 C09 C10 C11 C12 C13 C15 C16 C18 C19}
 for p in $PROPS; do ./check $p 2>&1 | grep -E "VIOLATION|UNDECIDED|^C[0-9]+:" | cut -c1-220; done
 git -C /repo checkout -- .
+# restore the evidence files from the unchanged tree
+for p in $PROPS; do ./check $p >/dev/null 2>&1; done
 git -C /repo status --short | head -3
